@@ -9,3 +9,4 @@ import J1939.Props.C08
 #print axioms J1939.Props.C08.c08_tickSnd_keeps_rcv
 #print axioms J1939.Props.C08.c08_history_wf
 #print axioms J1939.Props.C08.c08_thread_never_dies
+#print axioms J1939.Props.C08.c08_rx_change_wakes
